@@ -34,6 +34,10 @@ type c11Pend struct {
 	// aimAtWrite: (UP4) not sent with the others but at the moment the switch
 	// receives a Write whose summary contains this text, which then takes 3 ms
 	aimAtWrite string
+	// noResp: the message is of response type (a Session Report Response saying
+	// "session context not found", which makes the agent remove the session): nothing
+	// comes back, the round waits a moment instead
+	noResp bool
 }
 
 // delAllocPlanned counts the deletions already planned for this round whose session holds a pool address.
@@ -140,8 +144,8 @@ func scenarioC11(r *Run) {
 	up4 := r.Ch.Choose(2, "datapath") == 1
 	var o UP4Opts
 	// UE pool: large, or so small that a released address is handed out again at once
-	pool := []string{"10.60.0.0/24", "10.60.0.0/28", "10.60.0.0/29"}[r.Ch.Choose(3, "pool")]
-	poolSize := map[string]int{"10.60.0.0/24": 254, "10.60.0.0/28": 14, "10.60.0.0/29": 6}[pool]
+	pool := []string{"10.60.0.0/24", "10.60.0.0/28", "10.60.0.0/29", "10.60.0.0/30", "10.60.0.0/30"}[r.Ch.Choose(5, "pool")]
+	poolSize := map[string]int{"10.60.0.0/24": 254, "10.60.0.0/28": 14, "10.60.0.0/29": 6, "10.60.0.0/30": 2}[pool]
 	// RPC latency jitter lets the writes of two handlers overtake each other at the datapath
 	jit := []time.Duration{0, 50 * time.Microsecond, 400 * time.Microsecond, 2 * time.Millisecond}[r.Ch.Choose(4, "rpcjit")]
 	if up4 {
@@ -283,12 +287,18 @@ func scenarioC11(r *Run) {
 		waitAll := func(ps []*c11Pend) {
 			r.Sim.RunUntil(func() bool {
 				for _, pe := range ps {
-					if pe.p.FindResponse(respType(pe), pe.msg.Sequence()) == nil {
+					if !pe.noResp && pe.p.FindResponse(respType(pe), pe.msg.Sequence()) == nil {
 						return false
 					}
 				}
 				return true
 			}, r.Sim.NowNS()+int64(10*time.Second))
+			for _, pe := range ps {
+				if pe.noResp {
+					r.Sim.RunFor(60 * time.Millisecond)
+					break
+				}
+			}
 		}
 		if serial {
 			for _, pe := range pends {
@@ -343,6 +353,13 @@ func scenarioC11(r *Run) {
 		}
 		var kinds []string
 		for _, pe := range pends {
+			if pe.noResp {
+				r.Op("round %d %s peer%d Session Report Response (session context not found) for up=%d: the agent removes the session", round, mode, pe.p.Idx, pe.s.UPSEID)
+				kinds = append(kinds, "srr")
+				delete(pe.p.Sessions, pe.s.CPSEID)
+				delete(holder, pe.s)
+				continue
+			}
 			rx := pe.p.FindResponse(respType(pe), pe.msg.Sequence())
 			if rx == nil {
 				if r.AgentAlive() {
@@ -483,6 +500,14 @@ func scenarioC11(r *Run) {
 			if op == 3 {
 				if usesPool(s) {
 					delAlloc++
+				}
+				if !up4 && r.Ch.Choose(4, "del-by-report-response") == 1 {
+					// the other way a control plane gets rid of a session: it answers a
+					// (here: imagined) Session Report Request with "session context not found"
+					pends = append(pends, &c11Pend{p: p, kind: "del", s: s, noResp: true, tag: "srr-not-found",
+						msg: message.NewSessionReportResponse(0, 0, s.UPSEID, uint32(1+r.Ch.Choose(1<<20, "srr-seq")), 0, ie.NewCause(ie.CauseSessionContextNotFound))})
+					r.Probe("session-ended-by-report-response-in-a-round")
+					continue
 				}
 				pends = append(pends, &c11Pend{p: p, kind: "del", s: s, msg: p.DeleteMsg(s.UPSEID), tag: "-"})
 				continue
